@@ -2,16 +2,19 @@ import Driver.C04
 import Driver.Bridge
 import Driver.Abi
 import Driver.C19
+import Driver.C02
 
 /-- global driver state: one slot per stateful model -/
 structure St where
   bridge : Driver.Bridge.DSt := {}
   c19 : Driver.C19.State := Driver.C19.init
+  c02 : Driver.C02.State := Driver.C02.init
 
 def stepLine (st : St) (line : String) : St × String :=
   match (line.trimAscii.toString.splitOn " ").filter (· ≠ "") with
   | "C04" :: rest => (st, Driver.C04.step rest)
   | "C19" :: rest => let (s', o) := Driver.C19.step st.c19 rest; ({ st with c19 := s' }, o)
+  | "C02" :: rest => let (s', o) := Driver.C02.step st.c02 rest; ({ st with c02 := s' }, o)
   | "ABI" :: rest => (st, Driver.Abi.step rest)
   | "BR" :: rest => let (b, o) := Driver.Bridge.step st.bridge rest; ({ st with bridge := b }, o)
   | _ => (st, "bad-op")
